@@ -3,6 +3,7 @@ package checks
 import (
 	"encoding/json"
 	"fmt"
+	"math"
 	"math/big"
 	"time"
 
@@ -332,6 +333,19 @@ func (w *vestingWorld) genCreateVestingAccount(r *kernel.Run, rng *kernel.Rng) *
 	default:
 		end = start + int64(rng.Range(1, 100000))
 	}
+	// boundary values of the time fields with otherwise valid requests
+	switch rng.Intn(14) {
+	case 0:
+		start = math.MinInt64
+	case 1:
+		start = 0
+	case 2:
+		start = -1
+	case 3:
+		end = math.MaxInt64
+	case 4:
+		start, end = math.MinInt64, math.MaxInt64
+	}
 	to, freshName := w.pickRecipient(rng, from)
 	msg := &vtypes.MsgCreateVestingAccount{FromAddress: kernel.ActorBech(from), ToAddress: to, Amount: coins, StartTime: start, EndTime: end}
 	if freshName != "" {
@@ -365,7 +379,7 @@ func (w *vestingWorld) genSplit(r *kernel.Run, rng *kernel.Rng) *kernel.Tx {
 			return nil
 		}
 	}
-	locked := r.Chain.App.BankKeeper.LockedCoins(r.Chain.Ctx(), kernel.ActorAddr(from))
+	locked, _ := r.Chain.SafeLockedCoins(kernel.ActorAddr(from))
 	coins := sdk.NewCoins()
 	for _, c := range locked {
 		if rng.P(0.75) {
@@ -504,27 +518,33 @@ func (w *vestingWorld) cadence(r *kernel.Run, rng *kernel.Rng) int64 {
 // (absent, base account without/with key, vesting account, module account), from any signer.
 func (w *vestingWorld) genSigCreateAccount(r *kernel.Run, rng *kernel.Rng) *kernel.Tx {
 	creator := w.Clients[rng.Intn(len(w.Clients))]
+	// the target is an actor (so that its own public key can be presented) or a keyless address
+	targetActor := ""
 	var target string
-	switch rng.Intn(6) {
+	switch rng.Intn(7) {
 	case 0:
-		target = kernel.ActorBech(w.fresh())
-	case 1:
-		target = kernel.ActorBech(w.Clients[rng.Intn(len(w.Clients))])
-	case 2:
+		targetActor = w.fresh()
+	case 1, 2:
+		targetActor = w.Clients[rng.Intn(len(w.Clients))]
+	case 3, 4:
 		if len(w.VestActors) > 0 {
-			target = kernel.ActorBech(w.VestActors[rng.Intn(len(w.VestActors))])
+			targetActor = w.VestActors[rng.Intn(len(w.VestActors))]
 		} else {
-			target = kernel.ActorBech(creator)
+			targetActor = creator
 		}
-	case 3:
+	case 5:
 		target = kernel.ModuleAddr(vtypes.ModuleName).String()
-	case 4:
-		target = "not-an-address"
 	default:
-		target = kernel.ActorBech(w.Clients[0])
+		target = "not-an-address"
+	}
+	if targetActor != "" {
+		target = kernel.ActorBech(targetActor)
 	}
 	keyOwner := creator
-	if rng.Bool() {
+	switch {
+	case targetActor != "" && rng.P(0.6):
+		keyOwner = targetActor // the address's real key
+	case rng.Bool():
 		keyOwner = "attacker-key"
 	}
 	pkJSON, err := kernel.Enc().Marshaler.MarshalInterfaceJSON(kernel.ActorKey(keyOwner).PubKey())
